@@ -13,12 +13,17 @@ use crate::{
 const NAMES: [&str; 4] = ["ab", "\u{e9}", "\u{1d11e}x", ""];
 
 fn check_shape<const T: usize>(named: [bool; T]) {
+    check_names::<T>(named, &NAMES)
+}
+
+/// `names[i]` is the (concrete) name of slot i when `named[i]`.
+fn check_names<const T: usize>(named: [bool; T], names: &[&str]) {
     let mut tids = [0i32; T];
     let mut threads = Vec::with_capacity(T);
     for i in 0..T {
         tids[i] = kani::any();
         kani::assume(tids[i] > 0);
-        let name = if named[i] { Some(String::from(NAMES[i])) } else { None };
+        let name = if named[i] { Some(String::from(names[i])) } else { None };
         threads.push(Thread { tid: tids[i], name });
     }
     let d = dumper(threads, Vec::new(), 4096);
@@ -59,7 +64,7 @@ fn check_shape<const T: usize>(named: [bool; T]) {
         }
         let mut units = [0u16; 4];
         let mut nunits = 0usize;
-        for u in NAMES[i].encode_utf16() {
+        for u in names[i].encode_utf16() {
             units[nunits] = u;
             nunits += 1;
         }
@@ -104,3 +109,18 @@ shape!(c15_n3_un_un_na, 3, [false, false, true]);
 shape!(c15_n3_na_na_un, 3, [true, true, false]);
 shape!(c15_n4_un_na_un_na, 4, [false, true, false, true]);
 shape!(c15_n4_na_un_na_na, 4, [true, false, true, true]);
+
+// An EMPTY (but readable) name is still a name: the thread gets an entry with a zero-length string.
+macro_rules! named_shape {
+    ($name:ident, $t:expr, $pat:expr, $names:expr) => {
+        #[kani::proof]
+        #[kani::unwind(8)]
+        fn $name() {
+            check_names::<$t>($pat, &$names);
+        }
+    };
+}
+named_shape!(c15_n1_empty, 1, [true], [""]);
+named_shape!(c15_n2_empty_na, 2, [true, true], ["", "ab"]);
+named_shape!(c15_n2_na_empty, 2, [true, true], ["ab", ""]);
+named_shape!(c15_n3_na_empty_un, 3, [true, true, false], ["\u{e9}", "", "x"]);
